@@ -10,7 +10,9 @@ import (
 	"time"
 
 	"github.com/ansible/receptor/pkg/verifhook"
+	"verif/harness/memnet"
 	"verif/harness/mesh"
+	"verif/harness/peer"
 	"verif/harness/trace"
 )
 
@@ -67,6 +69,15 @@ func cmdMesh(args []string) {
 		names   map[string]bool
 	}
 	scs := make([]*scT, *scenarios)
+	// first, alone (the gate is process-wide): a link comes up and its peer dies while the node is between the
+	// flood request and the rebuild request of the establishment; afterwards the mesh must converge without it
+	gate := &scT{}
+	gate.sc, gate.final, gate.names, gate.inconcl = runMeshGateScenario(*scenarios)
+	defer func() {
+		if gate.inconcl != "" {
+			res.Inconclusive = append(res.Inconclusive, "gate scenario: "+gate.inconcl)
+		}
+	}()
 	sem := make(chan struct{}, *par)
 	var wg sync.WaitGroup
 	for i := 0; i < *scenarios; i++ {
@@ -91,6 +102,9 @@ func cmdMesh(args []string) {
 	enc := json.NewEncoder(f)
 	distinct := map[string]bool{}
 	keep := map[string]bool{}
+	if gate.inconcl == "" {
+		scs = append(scs, gate)
+	}
 	for _, s := range scs {
 		if s.inconcl != "" {
 			res.Inconclusive = append(res.Inconclusive, fmt.Sprintf("scenario %d: %s", s.sc.Index, s.inconcl))
@@ -348,4 +362,132 @@ func sortStrings(s []string) {
 			s[j], s[j-1] = s[j-1], s[j]
 		}
 	}
+}
+
+// runMeshGateScenario: nodes A-C are linked; a neighbour B of A announces itself and disappears exactly while A's
+// session goroutine is parked between the two requests that end the establishment (gate). Repeated a few times
+// because which branch of the final select wins is a coin flip. The final state must not contain B anywhere.
+func runMeshGateScenario(idx int) (sc meshScenario, final *meshFinal, names map[string]bool, inconcl string) {
+	names = map[string]bool{}
+	sc.Index = idx
+	m := mesh.New(mesh.Opts{RouteUpdate: 300 * time.Millisecond}, 99)
+	defer m.StopAll()
+	a, c := "gA", "gC"
+	sc.Nodes = []string{a, c}
+	names[m.Start(a).N.VerifName()] = true
+	names[m.Start(c).N.VerifName()] = true
+	if _, err := m.Connect(a, c, 1, 1); err != nil {
+		return sc, nil, names, err.Error()
+	}
+	sc.Links = append(sc.Links, [3]any{a, c, 1.0})
+	deadline := time.Now().Add(20 * time.Second)
+	for len(m.Nodes[a].N.Status().Connections) == 0 || len(m.Nodes[c].N.Status().Connections) == 0 {
+		if time.Now().After(deadline) {
+			return sc, nil, names, "A-C link did not come up"
+		}
+		time.Sleep(10 * time.Millisecond)
+	}
+	for k := 0; k < 6; k++ {
+		// the previous round's connection must have been forgotten; if it is still listed 3 s later the next
+		// session would only be refused as "already connected": stop here and let the final state show it
+		stale := true
+		for dl := time.Now().Add(3 * time.Second); time.Now().Before(dl); time.Sleep(10 * time.Millisecond) {
+			still := false
+			for _, cn := range m.Nodes[a].N.Status().Connections {
+				if cn.NodeID == "gB" {
+					still = true
+				}
+			}
+			if !still {
+				stale = false
+
+				break
+			}
+		}
+		if stale {
+			break
+		}
+		hit, release := verifhook.HoldGate("establish_before_rebuild_req")
+		be := memnet.NewBackend()
+		if err := m.Nodes[a].N.AddBackend(be); err != nil {
+			release()
+
+			return sc, nil, names, err.Error()
+		}
+		p, err := peer.Attach(be, "gB", int64(1000+k))
+		if err != nil {
+			release()
+
+			return sc, nil, names, err.Error()
+		}
+		_ = p.SendRoute(peer.RoutingUpdate{NodeID: "gB", UpdateID: fmt.Sprintf("gate-%d", k), UpdateEpoch: 3, UpdateSequence: 1, Connections: map[string]float64{}, ForwardingNode: "gB"})
+		select {
+		case <-hit:
+		case <-time.After(20 * time.Second):
+			release()
+
+			return sc, nil, names, "gate not reached"
+		}
+		if k%2 == 1 {
+			// while A is parked (B already in its adjacency picture), something else changes the topology, so
+			// that A rebuilds its table with B in it; then B dies
+			d := fmt.Sprintf("gD%d", k)
+			names[m.Start(d).N.VerifName()] = true
+			if _, err := m.Connect(c, d, 1, 1); err == nil {
+				sc.Events = append(sc.Events, meshEvent{Kind: "heal", A: c, B: d, Cost: 1})
+			}
+			dl := time.Now().Add(10 * time.Second)
+			for time.Now().Before(dl) {
+				if _, ok := m.Nodes[a].N.Status().RoutingTable[d]; ok {
+					break
+				}
+				time.Sleep(10 * time.Millisecond)
+			}
+		}
+		p.Close()
+		time.Sleep(150 * time.Millisecond)
+		release()
+		sc.Events = append(sc.Events, meshEvent{Kind: "up-then-peer-dies-at-gate", A: a, B: "gB"})
+		time.Sleep(50 * time.Millisecond)
+	}
+	period := 300 * time.Millisecond
+	start := time.Now()
+	streak := 0
+	late := false
+	for {
+		if m.LooksConverged() {
+			streak++
+			if streak >= 3 {
+				break
+			}
+		} else {
+			streak = 0
+		}
+		if time.Since(start) > 20*period {
+			late = true
+		}
+		if time.Since(start) > 120*period {
+			break
+		}
+		time.Sleep(period / 2)
+	}
+	final = &meshFinal{Ev: "final", Sc: idx, Late: late, Real: m.RealGraph(), Tables: map[string]map[string]string{},
+		Costs: map[string]map[string]float64{}, Conns: map[string]map[string]float64{}}
+	for _, id := range m.SortedIDs() {
+		nd := m.Nodes[id]
+		st := nd.N.Status()
+		final.Tables[id] = st.RoutingTable
+		final.Costs[id] = map[string]float64{}
+		for dst := range st.RoutingTable {
+			if cst, err := nd.N.PathCost(dst); err == nil {
+				final.Costs[id][dst] = cst
+			}
+		}
+		final.Conns[id] = map[string]float64{}
+		for _, cn := range st.Connections {
+			final.Conns[id][cn.NodeID] = cn.Cost
+		}
+	}
+
+	return sc, final, names, ""
 }
